@@ -17,6 +17,13 @@ Enumerated (every sub-grid completely, nothing sampled):
   W  direct        wrap(text, width, initial_indent, subsequent_indent)
   N  span-less primary diagnostics
 
+Tiers.  thorough: A over all 12^n sources for n = 1..4 (n <= 3 additionally with an empty
+line and the extra column indent//2), fills for n <= 3, B1/B2 over all 1- and 2-line
+sources.  quick (complete smaller bounds): A over all 1- and 2-line sources (also behind
+the fillers); 3 lines = all 64 indent vectors x all first/last lengths (middle length 10)
+and 4 lines = all 256 indent vectors with length 10, both without label; B1 over 9 and
+B2 over 3 representative sources.
+
 Oracle = predicates of the property statement (no second renderer, no golden output):
  (1) rendering returns;  (2) every gutter line `<n> | text` shows source line n minus a
  whitespace-only prefix whose length is the same for all lines of that snippet, and the
@@ -805,6 +812,7 @@ def run(ctx):
         "rule": "non-trivial = full-diagnostic case whose primary span covers at least one column "
                 "(every enumerated case is distinct by construction)",
         "samples": samples,
+        "space": "see module docstring of checks/c29.py, tier " + ctx.tier,
         "units": len(us),
         "evaluations_per_plan": per_plan,
         "violating_cases_per_key": {k: v[0] for k, v in sorted(viol.items())},
